@@ -60,17 +60,17 @@ func SetReplay(v map[string]uint64) {
 
 func get(name string) uint64 { return Replay[name] }
 
-func Bool(name string) bool { return get(name)&1 == 1 }
-func U8(name string) uint8  { return uint8(get(name)) }
-func U16(name string) uint16 { return uint16(get(name)) }
-func U32(name string) uint32 { return uint32(get(name)) }
-func U64(name string) uint64 { return get(name) }
-func I8(name string) int8    { return int8(get(name)) }
-func I16(name string) int16  { return int16(get(name)) }
-func I32(name string) int32  { return int32(get(name)) }
-func I64(name string) int64  { return int64(get(name)) }
-func Int(name string) int    { return int(get(name)) }
-func Uint(name string) uint  { return uint(get(name)) }
+func Bool(name string) bool   { return get(name)&1 == 1 }
+func U8(name string) uint8    { return uint8(get(name)) }
+func U16(name string) uint16  { return uint16(get(name)) }
+func U32(name string) uint32  { return uint32(get(name)) }
+func U64(name string) uint64  { return get(name) }
+func I8(name string) int8     { return int8(get(name)) }
+func I16(name string) int16   { return int16(get(name)) }
+func I32(name string) int32   { return int32(get(name)) }
+func I64(name string) int64   { return int64(get(name)) }
+func Int(name string) int     { return int(get(name)) }
+func Uint(name string) uint   { return uint(get(name)) }
 func F32(name string) float32 { return math.Float32frombits(uint32(get(name))) }
 func F64(name string) float64 { return math.Float64frombits(get(name)) }
 
